@@ -201,17 +201,6 @@ def render_section(sec):
             + g_body + ["<<<PER_GUARDTRANSITION_END>>>\n"] + e_post + ["<<<PER_EVENTTRANSITION_END>>>\n"] + s_post + ["<<<PER_STATETRANSITION_END>>>\n"])
 
 
-def ref_file(sections, m, table):
-    """template text is normalised first (blank runs), blocks are expanded, TAB -> 4 spaces at the end"""
-    tmpl = collapse([l for s in sections for l in render_section(s)])
-    # re-split the collapsed template into the sections' shapes is not needed: blank lines only occur in plain sections
-    out = []
-    for s in sections:
-        out += ref_section(s if s[0] != "plain" else ("plain", s[1]), m, table)
-    # collapse acts on the template, i.e. on plain sections and across their borders with other plain sections only
-    return None if tmpl is None else out
-
-
 # ---------------------------------------------------------------- generator of probe templates
 TEXT = ["int x = 0;", "// comment", "", "  ", "\tindented", "    return;", "#define A 1", "{", "}", "void f(a, b);", "x = y"]
 
@@ -340,12 +329,6 @@ def e2e_cases(ctx, n):
 
 def finding_key(files, table):
     return "c16-grammar-case"
-
-
-PROBES = [
-    # the MSMLITE table tag is a superstring of the MSM tag, whose stage runs first
-    ("msmlite-shadowed-by-msm", {"probe.txt": [("plain", ["<<<TTT_BOOST_MSMLITE>>>\n"])]}),
-]
 
 
 def run(ctx):
